@@ -540,6 +540,14 @@ type input struct {
 }
 
 func evaluate(in input, report reporter) {
+	if len(in.text) > maxText || len(in.module) > maxText {
+		pk.Discard("size>64KiB")
+		return
+	}
+	if in.depthHint <= 1000 && (nesting(in.text) > 1000 || nesting(in.module) > 1000) {
+		pk.Discard("nesting>1000") // outside the property's domain
+		return
+	}
 	entry := Case{Kind: in.kind, Text: in.text, Module: in.module, NoMain: in.noMain, Variant: "entry"}
 	parserHangs := false
 	var entryResp *sb.Response
